@@ -52,6 +52,9 @@ def validate(chk, runs, scratch, label="readstack"):
     for e in flat:
         kinds[e["e"]] = kinds.get(e["e"], 0) + 1
     chk.extra.setdefault("readstack_events", {})[label] = kinds
+    ndrift = len(tr.verdicts[-1].get("drift", []))
+    chk.extra.setdefault("readstack_layering_drift", {})[label] = ndrift      # events of a kind ReadStack.tla does not expect at that layer
+    chk.drift += ndrift
     for ln in sorted(tr.verdicts[-1]["bad"]):
         e = flat[ln - 1]
         desc = runs[owner[ln - 1]][0]
